@@ -1,5 +1,5 @@
 SPECIFICATION Spec
-INVARIANT RoundTrip OrderKept ParseInvertsFormat UserDataFits TxtLimit Total Emit
+INVARIANT RoundTrip FilterRespected OrderKept ParseInvertsFormat UserDataFits TxtLimit Total Emit
 CHECK_DEADLOCK FALSE
 CONSTANTS
   Classes = {"a", "sp", "cm", "dq", "nl", "u"}
@@ -11,5 +11,6 @@ CONSTANTS
   Pool <- MC_Pool
   UdSample <- MC_UdSample
   Foreign <- MC_Foreign
+  Filters = {"none", "relay_only", "ip_only"}
   AddrLists <- MC_AddrListsQuick
   FewLists <- MC_FewListsQuick
